@@ -2,6 +2,7 @@ package main
 
 import (
 	"fmt"
+	"sort"
 	"strings"
 
 	"google.golang.org/grpc/codes"
@@ -233,6 +234,7 @@ func (h *harness) pathScope(maxLen int) {
 			}
 		}
 		rec(nil)
+		sort.SliceStable(lists, func(i, j int) bool { return len(lists[i]) < len(lists[j]) }) // short lists first: the first failing input per signature is kept
 		// model: one line per (list, leaf)
 		var lines []string
 		for _, l := range lists {
